@@ -132,3 +132,30 @@ package io
 //@   ensures [short_only_with_error] len(result) < n0 ==> dec.Error != nil
 //@   ensures [stream_position] dec.reader != nil ==> ghost.rpos[ival(dec.reader)] - dec.tail + dec.head == lp0 + len(result)
 //@   ensures [result_never_aliases_the_input] result != nil ==> isnew(arr(result))
+
+// until(delim): everything up to the next delim, which is consumed as well. Without a delim
+// before the end of the input: everything that is left, and an error. Same statement in memory
+// and reader mode, on the logical position.
+//@ func (*Decoder).until
+//@   prop C04 C05
+//@   nopanic
+//@   use decwf
+//@   let lp0 = ghost.rpos[ival(dec.reader)] - dec.tail + dec.head
+//@   modifies @DECWIN, dec.buf[*]
+//@   loop 1 invariant safe && (data == nil || isnew(arr(data))) && arr(data) != arr(dec.buf) && 0 <= dec.head && dec.head <= dec.tail && dec.tail <= len(dec.buf)
+//@   loop 1 invariant dec.reader != nil ==> ghost.rpos[ival(dec.reader)] - dec.tail + dec.head == lp0 + len(data) && len(dec.buf) > 0 && ghost.rpos[ival(dec.reader)] >= dec.tail
+//@   loop 1 invariant dec.reader != nil ==> forall(j, off(dec.buf) + dec.head, off(dec.buf) + dec.tail, mem(dec.buf, j) == ghost.rstream[ival(dec.reader)][ghost.rpos[ival(dec.reader)] - dec.tail - off(dec.buf) + j])
+//@   loop 1 invariant forall(j, off(dec.buf) + dec.head, off(dec.buf) + dec.tail, mem(dec.buf, j) != delim)
+//@   loop 1 invariant dec.reader != nil ==> forall(j, off(data), off(data) + len(data), mem(data, j) == ghost.rstream[ival(dec.reader)][lp0 - off(data) + j])
+//@   loop 1 invariant forall(j, off(data), off(data) + len(data), mem(data, j) != delim)
+//@   loop 1 invariant dec.reader == nil ==> same(dec.buf, old(dec.buf)) && dec.tail == old(dec.tail) && dec.head + len(data) == old(dec.head) + len(data) + len(data) - len(data)
+//@   loop 1 invariant old(dec.Error) != nil ==> dec.Error != nil
+//@   loop 1 invariant arr(dec.buf) == old(arr(dec.buf)) || isnew(arr(dec.buf))
+//@   ensures [stream_position] dec.reader != nil ==> ghost.rpos[ival(dec.reader)] - dec.tail + dec.head == lp0 + len(data) + 1 ||
+//@       (dec.Error != nil && ghost.rpos[ival(dec.reader)] - dec.tail + dec.head == lp0 + len(data))
+//@   ensures [stream_content] dec.reader != nil ==> forall(j, off(data), off(data) + len(data), mem(data, j) == ghost.rstream[ival(dec.reader)][lp0 - off(data) + j])
+//@   ensures [stops_at_the_first_delimiter] forall(j, off(data), off(data) + len(data), mem(data, j) != delim)
+//@   ensures [delimiter_consumed_or_error] dec.reader != nil ==> dec.Error != nil || ghost.rstream[ival(dec.reader)][lp0 + len(data)] == delim
+//@   ensures [memory_position] dec.reader == nil ==> dec.head == old(dec.head) + len(data) + 1 || (dec.Error != nil && dec.head == dec.tail)
+//@   ensures [unsafe_result_is_a_view_of_the_window] !safe ==> arr(data) == arr(dec.buf) && len(data) <= len(dec.buf)
+//@   ensures [safe_result_is_private] safe && data != nil ==> isnew(arr(data))
